@@ -105,6 +105,29 @@ theorem new_entry_family_and_length :
     cases a <;> simp [mkCidr] at h <;> rw [← h]
   | bad => simp [mkCidr] at h
 
+/-- (audit repair) The side condition `c.len ≤ a.width` of `cidr_contains_iff_prefix` is met by every
+network `New` inserts, given what the standard library guarantees of a parsed CIDR (`ones ≤ bits`, and
+`bits` is 32 or 128, 128 for an IPv6 address): `contains` never runs into the truncated subtraction
+`width - len`. -/
+theorem new_entry_len_le_width (e : RawEntry) (c : Cidr) (h : mkCidr e = some c)
+    (hstd : ∀ a ones bits, e = .cidr a ones bits → ones ≤ bits ∧ (bits = 32 ∨ bits = 128) ∧
+      (a.width = 128 → bits = 128)) :
+    c.len ≤ c.addr.width := by
+  cases e with
+  | ip a => simp [mkCidr] at h; rw [← h]; exact Nat.le_refl _
+  | bad => simp [mkCidr] at h
+  | cidr a ones bits =>
+    obtain ⟨h1, h2, h3⟩ := hstd a ones bits rfl
+    cases a with
+    | v4 n =>
+      simp only [mkCidr, Option.some.injEq] at h
+      rw [← h]; simp only [Addr.width]
+      rcases h2 with h2 | h2 <;> subst h2 <;> simp <;> omega
+    | v6 n =>
+      simp only [mkCidr, Option.some.injEq] at h
+      rw [← h]; simp only [Addr.width]
+      have := h3 rfl; omega
+
 /-! ### Part 2 — the router -/
 
 /-- **Master equation** (cache off): the search is the filter-free reference router of C01, except
@@ -148,6 +171,45 @@ applies whenever no earlier host-matching rule holds a full match (in particular
 host-matching rule's filter always applies). -/
 theorem server_filter_applies (o : Oracle) (c : Cfg) (q : Req) : c.ipFilter ∈ applying o c q := by
   simp [applying]
+
+/-- (audit repair) `applying` is *defined* as what the search consults; these are its declarative
+consequences, so that the notion can be read without the loop: every applying filter is the server's, the
+filter of a host-matching rule, or the filter of a fully matching path of such a rule — never a filter of a
+rule whose host condition rejects the request, never a path filter of an entry that does not match. -/
+theorem applying_sound (o : Oracle) (c : Cfg) (q : Req) (f : Option Nat) (hf : f ∈ applying o c q) :
+    f = c.ipFilter ∨ (∃ r ∈ c.rules, hostOK o r q = true ∧
+      (f = r.ipFilter ∨ ∃ e ∈ r.paths, f = e.ipFilter ∧ ∃ ri pi, full o q (ri, pi, e) = true)) := by
+  have key : ∀ (rs : List Rule) (ri : Nat), f ∈ applyingFrom o q ri rs →
+      ∃ r ∈ rs, hostOK o r q = true ∧
+        (f = r.ipFilter ∨ ∃ e ∈ r.paths, f = e.ipFilter ∧ ∃ ri pi, full o q (ri, pi, e) = true) := by
+    intro rs
+    induction rs with
+    | nil => intro ri h; simp [applyingFrom] at h
+    | cons r rs ih =>
+      intro ri h
+      simp only [applyingFrom] at h
+      split at h
+      · obtain ⟨r', hr', h'⟩ := ih (ri + 1) h
+        exact ⟨r', List.mem_cons_of_mem _ hr', h'⟩
+      · rename_i hh
+        have hh' : hostOK o r q = true := by simpa using hh
+        split at h
+        · rename_i a b e hfind
+          have hm := List.mem_of_find?_eq_some hfind
+          have hfull := List.find?_some hfind
+          have he : e ∈ r.paths := List.mem_of_getElem? (mem_pathEntries.mp hm).2.2
+          simp only [List.mem_cons, List.not_mem_nil, or_false] at h
+          rcases h with h | h
+          · exact ⟨r, List.mem_cons_self, hh', Or.inl h⟩
+          · exact ⟨r, List.mem_cons_self, hh', Or.inr ⟨e, he, h, a, b, hfull⟩⟩
+        · rcases List.mem_cons.mp h with h | h
+          · exact ⟨r, List.mem_cons_self, hh', Or.inl h⟩
+          · obtain ⟨r', hr', h'⟩ := ih (ri + 1) h
+            exact ⟨r', List.mem_cons_of_mem _ hr', h'⟩
+  simp only [applying, List.mem_cons] at hf
+  rcases hf with hf | hf
+  · exact Or.inl hf
+  · exact Or.inr (key c.rules 0 hf)
 
 /-- 403 is produced by the cache-less search only through a denying applying filter. -/
 theorem forbidden_only_if_denied (o : Oracle) (c : Cfg) (q : Req) (h : search o c q = .code 403) :
